@@ -1,5 +1,6 @@
 """C14 — meaning is independent of names, declaration order and earlier problems."""
 import copy
+import itertools
 import json
 import os
 import random
@@ -104,6 +105,65 @@ def renamed(spec, rng):
     return gen.rename(spec, mapping), mapping
 
 
+def concat_mapping(spec):
+    """Collision-free names chosen so that `name + numeric parameters` of two items of the same kind on two different
+    resources (or tasks) read the same once concatenated without a separator: M1 + (2, 4) and M + (1, 24)."""
+    def digits(item):
+        out = []
+
+        def walk(v):
+            if isinstance(v, bool):
+                return
+            if isinstance(v, int):
+                out.append(str(v))
+            elif isinstance(v, list):
+                for x in v:
+                    walk(x)
+        for k in ("interval", "intervals", "map", "value", "distance", "period", "offset"):
+            if item.get(k) is not None:
+                walk(item[k])
+        return "".join(out)
+
+    mapping = {}
+    for ref, stem in (("resource", "M"), ("task", "K")):
+        items = []
+        for key in ("constraints", "objectives", "indicators"):
+            for it in spec.get(key, []):
+                if isinstance(it.get(ref), str):
+                    items.append((key, it["kind"], it[ref], digits(it)))
+        for a, b in itertools.permutations(items, 2):
+            if a[:2] == b[:2] and a[2] != b[2] and a[3] and b[3].endswith(a[3]) and len(b[3]) > len(a[3]):
+                mapping.update({a[2]: stem + b[3][:-len(a[3])], b[2]: stem})
+                break
+    return mapping or None
+
+
+def collision_specs():
+    """two resources carrying the same kind of item whose numeric parameters are suffixes of one another"""
+    W = [{"name": "w0"}, {"name": "w1"}]
+    T = [fam.fx("a", 3), fam.fx("b", 2), fam.fx("c", 4)]
+    on = [{"task": "a", "resource": "w0"}, {"task": "b", "resource": "w0"}, {"task": "c", "resource": "w1"}]
+    pins = [{"id": "pa", "kind": "TaskStartAt", "task": "a", "value": 10},
+            {"id": "pc", "kind": "TaskStartAt", "task": "c", "value": 0}]
+    out = []
+    out.append(fam.base(24, [dict(t) for t in T], workers=W, requirements=on, constraints=pins, objectives=[
+        {"kind": "FlowtimeSingleResource", "resource": "w0", "interval": [10, 20]},
+        {"kind": "FlowtimeSingleResource", "resource": "w1", "interval": [0, 20]}]))
+    out.append(fam.base(25, [dict(t) for t in T], workers=W, requirements=on, constraints=[
+        {"id": "u0", "kind": "ResourceUnavailable", "resource": "w0", "intervals": [[2, 4]]},
+        {"id": "u1", "kind": "ResourceUnavailable", "resource": "w1", "intervals": [[1, 24]]}]))
+    out.append(fam.base(25, [dict(t) for t in T], workers=W, requirements=on, constraints=[
+        {"id": "l0", "kind": "WorkLoad", "resource": "w0", "map": [[2, 4, 1]], "mode": "max"},
+        {"id": "l1", "kind": "WorkLoad", "resource": "w1", "map": [[1, 24, 1]], "mode": "max"}]))
+    out.append(fam.base(25, [dict(t) for t in T], workers=W, requirements=on, constraints=[
+        {"id": "s0", "kind": "TaskStartAfter", "task": "b", "value": 2, "mode": "lax"},
+        {"id": "s1", "kind": "TaskStartAfter", "task": "c", "value": 12, "mode": "lax"}]))
+    for sp in out:
+        for c in sp["constraints"]:
+            c["name"] = c["id"]
+    return out
+
+
 def run_twins(case):
     acc = common.Acc(PREFIXES)
     spec = case["spec"]
@@ -113,7 +173,12 @@ def run_twins(case):
     acc.executions += 1 + len(cands)
     for ti in range(case["ntwins"]):
         kind = "rename" if ti % 2 == 0 else "permute"
-        if kind == "rename":
+        cm = concat_mapping(spec) if ti == 0 else None
+        if cm:
+            kind = "rename-concat"
+            twin, mapping = gen.rename(spec, cm), cm
+            tc = [rename_cand(c, mapping) for c in cands]
+        elif kind == "rename":
             twin, mapping = renamed(spec, rng)
             tc = [rename_cand(c, mapping) for c in cands]
         else:
@@ -328,6 +393,7 @@ def base_specs(n, seed, tier):
                         constraints=[{"id": "nd", "kind": "ResourceNonDelay", "resource": "w0"}]))
     out.append(fam.base(5, [fam.fx("x", 1, optional=True), fam.fx("y", 2), fam.fx("z", 1, optional=True)],
                         constraints=[{"id": "tc", "kind": "TasksContiguous", "tasks": ["x", "y", "z"]}]))
+    out += collision_specs()
     return out
 
 
